@@ -42,7 +42,7 @@ type Mutex struct {
 // Lock: waiters are all woken on Unlock and contend again, so the scheduler (not a FIFO)
 // decides who gets the lock next, as with the runtime's barging mutex.
 func (m *Mutex) Lock() {
-	simrt.Yield("Lock")
+	simrt.YieldPC("Lock", 1)
 	for {
 		m.mu.Lock()
 		if !m.locked {
@@ -59,7 +59,7 @@ func (m *Mutex) Lock() {
 }
 
 func (m *Mutex) TryLock() bool {
-	simrt.Yield("TryLock")
+	simrt.YieldPC("TryLock", 1)
 	m.mu.Lock()
 	defer m.mu.Unlock()
 	if m.locked {
@@ -95,7 +95,7 @@ type RWMutex struct {
 }
 
 func (m *RWMutex) Lock() {
-	simrt.Yield("Lock")
+	simrt.YieldPC("Lock", 1)
 	m.mu.Lock()
 	if !m.writer && m.readers == 0 && len(m.q) == 0 {
 		m.writer = true
@@ -110,7 +110,7 @@ func (m *RWMutex) Lock() {
 }
 
 func (m *RWMutex) TryLock() bool {
-	simrt.Yield("TryLock")
+	simrt.YieldPC("TryLock", 1)
 	m.mu.Lock()
 	defer m.mu.Unlock()
 	if !m.writer && m.readers == 0 && len(m.q) == 0 {
@@ -121,7 +121,7 @@ func (m *RWMutex) TryLock() bool {
 }
 
 func (m *RWMutex) RLock() {
-	simrt.Yield("RLock")
+	simrt.YieldPC("RLock", 1)
 	m.mu.Lock()
 	if !m.writer && len(m.q) == 0 {
 		m.readers++
@@ -136,7 +136,7 @@ func (m *RWMutex) RLock() {
 }
 
 func (m *RWMutex) TryRLock() bool {
-	simrt.Yield("TryRLock")
+	simrt.YieldPC("TryRLock", 1)
 	m.mu.Lock()
 	defer m.mu.Unlock()
 	if !m.writer && len(m.q) == 0 {
@@ -239,7 +239,7 @@ func (wg *WaitGroup) Go(f func()) {
 }
 
 func (wg *WaitGroup) Wait() {
-	simrt.Yield("wg.Wait")
+	simrt.YieldPC("wg.Wait", 1)
 	wg.mu.Lock()
 	if wg.n == 0 {
 		wg.mu.Unlock()
